@@ -396,6 +396,16 @@ func (t *Task) main() {
 		}()
 		t.fn(t)
 	}()
+	t.finish()
+}
+
+// finish reports the end of the task to the scheduler. (Not instrumented: a
+// goroutine the library started may end under another Sim than the one it was
+// started under - Adopt - and the scheduler's hand-offs are hidden from the
+// race detector.)
+//
+//go:norace
+func (t *Task) finish() {
 	raceDisable()
 	t.sim.yieldCh <- yieldMsg{t.ID, siteDone}
 	raceEnable()
@@ -595,20 +605,26 @@ func (s *Sim) startTask(name string, fn func()) {
 	t := &Task{ID: len(s.tasks), Name: name, sim: s, resume: make(chan int), parked: siteStart,
 		fn: func(*Task) { fn() }, started: true}
 	n := len(s.tasks)
-	bigger := make([]*Task, n+1)
-	for i := 0; i < n; i++ {
-		bigger[i] = s.tasks[i]
+	if n == cap(s.tasks) {
+		bigger := make([]*Task, n, 2*n+8)
+		for i := 0; i < n; i++ {
+			bigger[i] = s.tasks[i]
+		}
+		s.tasks = bigger
 	}
-	bigger[n] = t
-	s.tasks = bigger
+	s.tasks = s.tasks[:n+1]
+	s.tasks[n] = t
 	if s.inRun {
 		m := len(s.spawned)
-		sp := make([]*Task, m+1)
-		for i := 0; i < m; i++ {
-			sp[i] = s.spawned[i]
+		if m == cap(s.spawned) {
+			sp := make([]*Task, m, 2*m+8)
+			for i := 0; i < m; i++ {
+				sp[i] = s.spawned[i]
+			}
+			s.spawned = sp
 		}
-		sp[m] = t
-		s.spawned = sp
+		s.spawned = s.spawned[:m+1]
+		s.spawned[m] = t
 	}
 	if s.Strategy == StratPCT {
 		t.prio = 1 + s.Sched.Draw(n+1)
@@ -1009,19 +1025,35 @@ func (s *Sim) HandoffTake() (unsafe.Pointer, int, int) {
 // Adopt takes over the goroutines the library started under another Sim of
 // the same run (C19 executes its program twice): they are parked, and from
 // now on this Sim's scheduler resumes them. Pending timers move as well.
+//
+//go:norace
 func (s *Sim) Adopt(from *Sim) {
-	for _, t := range from.tasks {
+	for i := 0; i < len(from.tasks); i++ {
+		t := from.tasks[i]
 		if t.root || t.finished {
 			continue
 		}
 		t.sim = s
 		t.ID = len(s.tasks)
-		s.tasks = append(s.tasks, t)
+		n := len(s.tasks)
+		bigger := make([]*Task, n+1)
+		for k := 0; k < n; k++ {
+			bigger[k] = s.tasks[k]
+		}
+		bigger[n] = t
+		s.tasks = bigger
 	}
-	for _, tm := range from.timers {
+	for i := 0; i < len(from.timers); i++ {
+		tm := from.timers[i]
 		if !tm.dead {
 			tm.at = tm.at - from.now + s.now
-			s.timers = append(s.timers, tm)
+			n := len(s.timers)
+			bigger := make([]*simTimer, n+1)
+			for k := 0; k < n; k++ {
+				bigger[k] = s.timers[k]
+			}
+			bigger[n] = tm
+			s.timers = bigger
 		}
 	}
 	from.tasks = nil
